@@ -107,7 +107,7 @@ def run_history(modes, ephs, balance, events):
                     subs[ev[1]].feed(pubs[ev[1]].queue.pop(0))
         else:
             try:
-                res = r.recv(timeout=0)
+                res = r.recv(Z.ZMQStateRecv(ev[1]), timeout=0) if len(ev) > 1 else r.recv(timeout=0)      # ('recv', k): the caller (a coupled sender) asks for ids >= k
             except Exception as e:
                 log.append(f'recv raised {type(e).__name__}: {e}')
                 return [f'recv raised {type(e).__name__}: {e}'], log
@@ -139,6 +139,27 @@ def scripted(modes, ephs, balance):
         yield ev
 
 
+def scripted_held(S):
+    """a recv() times out holding the complete set of one source; the caller's expected id then moves on (it published on its own after a sources timeout, or was
+    fast-forwarded) and asks for a newer id: the stale set must not be combined with the newer frames of the other sources"""
+    if S < 2:
+        return
+    for late in range(S):
+        ev = []
+        for k in range(S):
+            if k != late:
+                ev += [('pub', k, 1), ('deliver', k, 9)]
+        ev.append(('recv', 1))                    # times out: source `late` has not delivered id 1
+        for k in range(S):
+            ev.append(('pub', k, 2))
+        ev += [('deliver', late, 9), ('recv', 2)]   # the caller now asks for id 2; only `late` has delivered it
+        for k in range(S):
+            if k != late:
+                ev += [('deliver', k, 9)]
+        ev += [('recv', 2), ('recv', 3)]
+        yield ev
+
+
 def random_history(rnd, S):
     ev, nxt = [], [0] * S
     for _ in range(rnd.randint(4, 14)):
@@ -164,7 +185,7 @@ def random_history(rnd, S):
 
 
 def search(modes, ephs, balance, n_random=3000, seed=0):
-    for ev in scripted(modes, ephs, balance):
+    for ev in list(scripted(modes, ephs, balance)) + (list(scripted_held(len(modes))) if not balance and not any(ephs) else []):
         bad, log = run_history(modes, ephs, balance, ev)
         if bad:
             return {'confirmed': True, 'history': [list(e) for e in ev], 'observed': bad, 'log': log}
